@@ -349,7 +349,7 @@ func hoTCPKeys(c vCfg) map[int][]int {
 	return out
 }
 
-var vKeyClass = map[int]int{1: 1, 2: 2, 3: 3, 4: 1, 6: 4}
+var vKeyClass = map[int]int{1: 1, 2: 2, 3: 3, 4: 1, 6: 4, 7: 5}
 
 func (h *vHarness) runHandover(sc vScenario, sk *hoSink) {
 	m := newVMetrics()
@@ -368,7 +368,7 @@ func (h *vHarness) runHandover(sc vScenario, sk *hoSink) {
 	stopHammer := make(chan struct{})
 	var hw sync.WaitGroup
 	if sc.Mode == "hammer" {
-		for g := 0; g < 3; g++ {
+		for g := 0; g < 5; g++ {
 			hw.Add(1)
 			go func(g int) {
 				defer hw.Done()
@@ -380,13 +380,13 @@ func (h *vHarness) runHandover(sc vScenario, sk *hoSink) {
 					default:
 					}
 					a := 1 + i%len(h.u.ports)
-					cs := 1 + (i/len(h.u.ports))%4
-					if g == 2 {
+					cs := 1 + (i/len(h.u.ports))%len(vClassKey)
+					if g == 4 {
 						s.clientUDP(a, cs, "hammer")
 					} else {
 						s.clientTCP(a, cs, "hammer")
 					}
-					i += 3
+					i += 5
 				}
 			}(g)
 		}
@@ -395,7 +395,9 @@ func (h *vHarness) runHandover(sc vScenario, sk *hoSink) {
 	steps := sc.Steps
 	if sc.Mode == "hammer" {
 		// free-running clients see more reloads: the sequence of configurations is cycled
-		steps = append(append(append([]vStep{}, sc.Steps...), sc.Steps...), sc.Steps...)
+		for c := 0; c < 4; c++ {
+			steps = append(steps, sc.Steps...)
+		}
 	}
 	for i, st := range steps {
 		if st.A != "Load" {
@@ -433,7 +435,7 @@ func (h *vHarness) runHandover(sc vScenario, sk *hoSink) {
 				case name := <-gateHit:
 					h.emit(map[string]any{"ev": "Window", "stage": name})
 					for a := 1; a <= len(h.u.ports); a++ {
-						for cs := 1; cs <= 4; cs++ {
+						for cs := 1; cs <= len(vClassKey); cs++ {
 							s.clientTCP(a, cs, "window-"+name)
 							s.clientUDP(a, cs, "window-"+name)
 						}
@@ -456,7 +458,7 @@ func (h *vHarness) runHandover(sc vScenario, sk *hoSink) {
 		// idle phase after the reload: the full matrix
 		if sc.Mode != "hammer" {
 			for a := 1; a <= len(h.u.ports); a++ {
-				for cs := 1; cs <= 4; cs++ {
+				for cs := 1; cs <= len(vClassKey); cs++ {
 					s.clientTCP(a, cs, "after")
 					s.clientUDP(a, cs, "after")
 				}
